@@ -503,6 +503,7 @@ func c08Corpus(c *hx.Ctx) []c08Seed {
 		{"13x11-tiles5-rgb", 13, 11, 3, 8, false, func(p *jpeg2000.EncodeParams) { p.TileWidth, p.TileHeight = 5, 6 }},
 		{"16x16-layers3", 16, 16, 1, 8, false, func(p *jpeg2000.EncodeParams) { p.NumLayers = 3 }},
 		{"16x16-l0", 16, 16, 1, 8, false, func(p *jpeg2000.EncodeParams) { p.NumLevels = 0 }},
+		{"16x64", 16, 64, 1, 8, false, func(p *jpeg2000.EncodeParams) { p.NumLevels = 2 }},
 		{"32x32-l5", 32, 32, 1, 8, false, func(p *jpeg2000.EncodeParams) { p.NumLevels = 5 }},
 		{"16x16-prec", 16, 16, 1, 8, false, func(p *jpeg2000.EncodeParams) { p.PrecinctWidth, p.PrecinctHeight = 8, 8; p.NumLevels = 2 }},
 		{"8x8-lossy", 8, 8, 1, 8, false, func(p *jpeg2000.EncodeParams) { p.Lossless = false; p.Quality = 60 }},
@@ -693,7 +694,7 @@ func (b *c08Builder) add(target int, fi [5]uint16, data []byte, origin, base str
 		}
 		b.nLarge++
 	}
-	if sc.S > 1<<16 && sc.S <= c09SMax && origin != "boundary" && origin != "corpus" && origin != "rle-frameinfo-large" {
+	if sc.S > 1<<16 && sc.S <= c09SMax && origin != "boundary" && origin != "corpus" && origin != "rle-frameinfo-large" && origin != "j2k-mct-stages" {
 		// decodes of large declared frames are slow (page faults of the frame buffers): thin them out
 		keep := 8
 		if b.c.Thorough() {
@@ -1191,13 +1192,31 @@ func (b *c08Builder) j2kGridOffsets(seeds []c08Seed) {
 		if c08Targets[s.Target].Family != "j2k" || s.Fixture || len(s.Data) < 42 || !bytes.HasPrefix(s.Data, []byte{0xFF, 0x4F, 0xFF, 0x51}) {
 			continue
 		}
-		if !b.c.Thorough() && (i+int(b.c.Seed))%8 != 0 && s.Name != "j2k-8x8-l1" && s.Name != "j2k-16x12-tiles8" {
+		named := s.Name == "j2k-8x8-l1" || s.Name == "j2k-16x12-tiles8" || s.Name == "j2k-16x64" || s.Name == "htj2k-ht-8x8"
+		if !b.c.Thorough() && (i+int(b.c.Seed))%8 != 0 && !named {
 			continue
 		}
 		n++
 		xs, ys := int64(binary.BigEndian.Uint32(s.Data[8:])), int64(binary.BigEndian.Uint32(s.Data[12:]))
 		xt, yt := int64(binary.BigEndian.Uint32(s.Data[24:])), int64(binary.BigEndian.Uint32(s.Data[28:]))
-		offs := []int64{1, 255, 1 << 12, 1 << 14, 1 << 20, 1<<31 - 64}
+		emit := func(xo, yo, xts, yts, xto, yto int64, op string) {
+			if xo+xs >= 1<<32 || yo+ys >= 1<<32 || xts <= 0 || yts <= 0 || xts >= 1<<32 || yts >= 1<<32 {
+				return
+			}
+			m := c08Clone(s.Data)
+			put := func(o int, v int64) { binary.BigEndian.PutUint32(m[o:], uint32(v)) }
+			put(8, xo+xs)
+			put(12, yo+ys)
+			put(16, xo)
+			put(20, yo)
+			put(24, xts)
+			put(28, yts)
+			put(32, xto)
+			put(36, yto)
+			b.add(s.Target, s.FI, m, op, s.Name)
+		}
+		// (a) BOTH offsets large: the class c09-j2k-grid-offset lived here (quadratic precinct-grid growth, repaired by 3981d09)
+		offs := []int64{1, 255, 1 << 11, 1 << 12, 1 << 14, 1 << 16, 1 << 20, 1 << 24, 1<<31 - 64}
 		if b.c.Thorough() {
 			offs = []int64{1, 7, 255, 1 << 10, 1 << 12, 1 << 14, 1 << 16, 1<<16 + 3, 1 << 20, 1 << 24, 1 << 28, 1<<31 - 64, 1<<32 - 1 - xs - ys}
 		}
@@ -1205,43 +1224,29 @@ func (b *c08Builder) j2kGridOffsets(seeds []c08Seed) {
 			if off < 0 {
 				continue
 			}
-			for variant := 0; variant < 5; variant++ {
-				m := c08Clone(s.Data)
-				xo, yo := off, off
-				if variant == 3 {
-					yo = 0
-				}
-				if variant == 4 {
-					xo = 0
-				}
-				put := func(o int, v int64) { binary.BigEndian.PutUint32(m[o:], uint32(v)) }
-				put(8, xo+xs)
-				put(12, yo+ys)
-				put(16, xo)
-				put(20, yo)
-				switch variant {
-				case 0: // one tile anchored at the grid origin, covering the image
-					put(24, xo+xs)
-					put(28, yo+ys)
-					put(32, 0)
-					put(36, 0)
-				case 1: // tile origin = image origin, tile size as in the corpus stream
-					put(24, xt)
-					put(28, yt)
-					put(32, xo)
-					put(36, yo)
-				case 2: // small tile origin, tile size as in the corpus stream (many tiles in front of the image)
-					put(24, xt)
-					put(28, yt)
-					put(32, int64(r.Intn(4)))
-					put(36, int64(r.Intn(4)))
-				default:
-					put(24, xo+xs)
-					put(28, yo+ys)
-					put(32, int64(r.Intn(2)))
-					put(36, int64(r.Intn(2)))
-				}
-				b.add(s.Target, s.FI, m, "j2k-grid-offset", s.Name)
+			emit(off, off, off+xs, off+ys, 0, 0, "j2k-grid-offset")                                  // one tile anchored at the grid origin
+			emit(off, off, xt, yt, off, off, "j2k-grid-offset")                                      // tile origin = image origin
+			emit(off, off, xt, yt, int64(r.Intn(4)), int64(r.Intn(4)), "j2k-grid-offset")          // many tiles in front of the image
+		}
+		// (b) ONE axis only, the other at 0: the unchanged decoder is fast here (tens of ms, < 1 MiB), so any
+		// blow-up is a new violation — e.g. a tile clamp against the tile origin instead of the image origin sizes
+		// the tile buffers by Xsiz instead of Xsiz − XOsiz
+		one := []int64{1 << 12, 1 << 16, 1 << 20, 1 << 22, 1 << 24, 1 << 26, 1<<31 - 64}
+		if b.c.Thorough() {
+			one = []int64{1, 255, 1 << 10, 1 << 12, 1 << 14, 1 << 16, 1 << 18, 1 << 20, 1 << 22, 1 << 23, 1 << 24, 1 << 26, 1 << 28, 1 << 30, 1<<31 - 64, 1<<32 - 1 - xs - ys}
+		}
+		for _, off := range one {
+			if off < 0 {
+				continue
+			}
+			// a single tile [0, Xsiz) x [0, Ysiz) anchored at the grid origin
+			emit(off, 0, off+xs, ys, 0, 0, "j2k-grid-offset-x")
+			emit(0, off, xs, off+ys, 0, 0, "j2k-grid-offset-y")
+			if named || b.c.Thorough() {
+				emit(off, 0, off+xs, yt, 0, 0, "j2k-grid-offset-x") // tile rows as in the corpus stream
+				emit(off, 0, xt, yt, off, 0, "j2k-grid-offset-x")   // tile origin = image origin
+				emit(0, off, xt, yt, 0, off, "j2k-grid-offset-y")
+				emit(off, 0, off+xs+1, ys+1, 0, 0, "j2k-grid-offset-x") // tile slightly larger than the image
 			}
 		}
 	}
@@ -1569,6 +1574,7 @@ func c08BuildJobs(c *hx.Ctx) []c08Job {
 	b.j2kCodingStyleSweep(seeds)
 	b.j2kGridOffsets(seeds)
 	b.j2kPart2(seeds)
+	b.j2kMctStages()
 	b.jlsScans(seeds)
 	if only := os.Getenv("C08_ONLY"); only != "" { // analysis aid: restrict to some entry points
 		var js []c08Job
